@@ -12,6 +12,7 @@ NODE_DEFAULT = dict(kind='', fn=0, k=0, tgt=[], e=0, body=[], orelse=[], final=[
                     exc=0, args=[], form='', nch=0)
 EXPR_DEFAULT = dict(kind='', k=0, reads=[], args=[], name='')
 JUMPS = ('break', 'continue', 'return', 'raise')
+BINOPS = dict(add='+', sub='-', mul='*', lt='<', le='<=', gt='>', ge='>=', eq='==', ne='!=')
 
 
 class Builder:
@@ -107,6 +108,7 @@ def finish_program(p):
         if x['name']:
             names.add(x['name'])
     p['names'] = sorted(names)
+    p.setdefault('pure', 0)
     p['anc'] = ancestors(p)
     return p
 
@@ -288,6 +290,10 @@ def r_expr(p, e):
         return 'None'
     if k == 'bool':
         return 'True' if x['k'] else 'False'
+    if k in BINOPS:
+        return '(%s %s %s)' % (r_expr(p, x['args'][0]), BINOPS[k], r_expr(p, x['args'][1]))
+    if k == 'range':
+        return 'range(%s)' % r_expr(p, x['args'][0])
     if k == 'not':
         return '(not %s)' % r_expr(p, x['args'][0])
     if k in ('and', 'or'):
@@ -472,7 +478,9 @@ class Run:
         return dict(T=self.T, D=self.D, I=self.I, CM=self.CM, E1=E1, E2=E2)
 
 
-def main_args(p):
+def main_args(p, inp=None):
+    if p.get('pure'):
+        return list(inp)
     return [Tok(('t', 0, i + 1)) for i in range(len(p['fns'][0]['params']))]
 
 
@@ -489,15 +497,17 @@ def outcome(fn, args):
         return ['exc', type(e).__name__]
     except RecursionError:
         return ['exc', 'RecursionError']
+    except TypeError as e:
+        return ['exc', 'TypeError']
     except Exception as e:      # anything else is reported verbatim and never equals a specified outcome
         return ['exc', 'OTHER:%s:%s' % (type(e).__name__, str(e)[:120])]
 
 
-def run_py(src, p, decisions, fname=None):
+def run_py(src, p, decisions, fname=None, inp=None):
     run = Run(decisions)
     ns = run.ns()
     exec(compile(src, '<minipy>', 'exec'), ns)
-    out = outcome(ns[fname or p['fns'][0]['name']], main_args(p))
+    out = outcome(ns[fname or p['fns'][0]['name']], main_args(p, inp))
     return dict(log=run.log, out=out, used=run.di)
 
 
@@ -508,7 +518,7 @@ def spec_outcome(rec):
         return ['ret', o[1]]
     if o[1][0] == 'x':
         return ['exc', 'E%d' % o[1][1]]
-    return ['exc', 'NameError']
+    return ['exc', 'NameError' if o[1][1] == 1 else 'TypeError']
 
 
 def same_observation(rec, res):
@@ -522,3 +532,152 @@ if __name__ == '__main__':
     progs = [gen_random(seed0 + i) for i in range(n)]
     json.dump(progs, open(sys.argv[3], 'w'))
     print(render(progs[0])[0])
+
+
+# ------------------------------------------------------------------ pure profile (C02, C19)
+class PureGen:
+    """Side-effect-free, total programs over small ints: every variable is assigned before any read."""
+
+    def __init__(self, rnd, maxdepth=3, closures=True):
+        self.r = rnd
+        self.b = Builder()
+        self.maxdepth = maxdepth
+        self.closures = closures
+        self.vars = ['x', 'y', 'z']
+        self.loopvars = 0
+
+    def atom(self, scope):
+        b = self.b
+        if self.r.random() < 0.3:
+            return b.expr(kind='const', k=self.r.choice([0, 1, 1, 2, 3]))
+        return b.expr(kind='name', name=self.r.choice(scope))
+
+    def arith(self, scope, depth=0):
+        b = self.b
+        if depth > 0 or self.r.random() < 0.45:
+            return self.atom(scope)
+        return b.expr(kind=self.r.choice(['add', 'add', 'sub', 'mul']), args=[self.arith(scope, 1), self.atom(scope)])
+
+    def test(self, scope, depth=0):
+        b = self.b
+        r = self.r.random()
+        if r < 0.7 or depth > 0:
+            return b.expr(kind=self.r.choice(['lt', 'le', 'gt', 'ge', 'eq', 'ne']), args=[self.arith(scope, 1), self.arith(scope, 1)])
+        if r < 0.8:
+            return b.expr(kind='not', args=[self.test(scope, 1)])
+        return b.expr(kind=self.r.choice(['and', 'or']), args=[self.test(scope, 1), self.test(scope, 1)])
+
+    def block(self, fn, scope, depth, inloop, lo=1, hi=3):
+        out = []
+        for _ in range(self.r.randint(lo, hi)):
+            n = self.stmt(fn, scope, depth, inloop)
+            out.append(n)
+            if self.b.nodes[n - 1]['kind'] in JUMPS:
+                break
+        return out
+
+    def stmt(self, fn, scope, depth, inloop):
+        b, r, N = self.b, self.r, self.b.nodes
+        q = r.random()
+        if q < 0.38 or depth >= self.maxdepth:
+            return b.node(kind='assign', fn=fn, tgt=[r.choice(self.vars)], e=self.arith(scope))
+        if q < 0.58:
+            i = b.node(kind='if', fn=fn)
+            N[i - 1]['e'] = self.test(scope)
+            N[i - 1]['body'] = self.block(fn, scope, depth + 1, inloop)
+            if r.random() < 0.6:
+                N[i - 1]['orelse'] = self.block(fn, scope, depth + 1, inloop)
+            return i
+        if q < 0.70:
+            # counted while loop: `c = 0` / `while c < bound:` ... `c = c + 1` (the increment is the last statement
+            # of the body; a `continue` before it makes the loop diverge, which the bounds prune on both sides)
+            self.loopvars += 1
+            c = 'c%d' % self.loopvars
+            init = b.node(kind='assign', fn=fn, tgt=[c], e=b.expr(kind='const', k=0))
+            i = b.node(kind='while', fn=fn)
+            N[i - 1]['e'] = b.expr(kind='lt', args=[b.expr(kind='name', name=c), self.atom(scope)])
+            body = self.block(fn, scope + [c], depth + 1, True, hi=2)
+            inc = b.node(kind='assign', fn=fn, tgt=[c], e=b.expr(kind='add', args=[b.expr(kind='name', name=c), b.expr(kind='const', k=1)]))
+            if N[body[-1] - 1]['kind'] in JUMPS:
+                body = body[:-1] + [inc] if len(body) > 1 else [inc]
+            else:
+                body = body + [inc]
+            N[i - 1]['body'] = body
+            self.pending = [init, i]
+            return ('seq', [init, i])
+        if q < 0.82:
+            self.loopvars += 1
+            v = 'i%d' % self.loopvars
+            i = b.node(kind='for', fn=fn, tgt=[v])
+            N[i - 1]['e'] = b.expr(kind='range', args=[self.atom(scope)])
+            N[i - 1]['body'] = self.block(fn, scope + [v], depth + 1, True, hi=2)
+            return i
+        if q < 0.88 and inloop:
+            return b.node(kind=r.choice(['break', 'continue']), fn=fn)
+        if q < 0.94:
+            return b.node(kind='return', fn=fn, e=self.arith(scope))
+        if self.closures and depth <= 1 and len(b.fns) < 3:
+            fid = b.fn('g%d' % (len(b.fns) + 1), ['p'], fn)
+            if r.random() < 0.4:
+                b.fns[fid - 1]['nonlocals'] = [r.choice(self.vars)]
+            body = self.block(fid, scope + ['p'], depth + 1, False, hi=2)
+            if N[body[-1] - 1]['kind'] != 'return':
+                body.append(b.node(kind='return', fn=fid, e=self.arith(scope + ['p'])))
+            b.fns[fid - 1]['body'] = body
+            d = b.node(kind='def', fn=fn, name=b.fns[fid - 1]['name'], f=fid)
+            c = b.node(kind='call', fn=fn, name=b.fns[fid - 1]['name'], form='assign', args=[r.choice(scope)], tgt=[r.choice(self.vars)])
+            return ('seq', [d, c])
+        return b.node(kind='assign', fn=fn, tgt=[r.choice(self.vars)], e=self.arith(scope))
+
+    def program(self, lo=2, hi=4):
+        b = self.b
+        b.fn('f', ['a', 'b'], 0)
+        scope = self.vars + ['a', 'b']
+        body = [b.node(kind='assign', fn=1, tgt=[v], e=b.expr(kind=k, **kw)) for v, k, kw in
+                (('x', 'name', dict(name='a')), ('y', 'const', dict(k=0)), ('z', 'const', dict(k=1)))]
+        body += self.block(1, scope, 0, False, lo=lo, hi=hi)
+        if b.nodes[body[-1] - 1]['kind'] != 'return':
+            body.append(b.node(kind='return', fn=1, e=b.expr(kind='add', args=[
+                b.expr(kind='add', args=[b.expr(kind='name', name='x'), b.expr(kind='mul', args=[b.expr(kind='name', name='y'), b.expr(kind='const', k=3)])]),
+                b.expr(kind='mul', args=[b.expr(kind='name', name='z'), b.expr(kind='const', k=7)])])))
+        b.fns[0]['body'] = body
+        p = b.finish()
+        p['pure'] = 1
+        return p
+
+
+def _flatten_seq(p_builder_block):
+    out = []
+    for n in p_builder_block:
+        if isinstance(n, tuple):
+            out.extend(n[1])
+        else:
+            out.append(n)
+    return out
+
+
+_orig_block = PureGen.block
+
+
+def _block(self, fn, scope, depth, inloop, lo=1, hi=3):
+    out = []
+    for _ in range(self.r.randint(lo, hi)):
+        n = self.stmt(fn, scope, depth, inloop)
+        if isinstance(n, tuple):
+            out.extend(n[1])
+            last = n[1][-1]
+        else:
+            out.append(n)
+            last = n
+        if self.b.nodes[last - 1]['kind'] in JUMPS:
+            break
+    return out
+
+
+PureGen.block = _block
+
+
+def gen_pure(seed, **kw):
+    lo = kw.pop('lo', 2)
+    hi = kw.pop('hi', 4)
+    return PureGen(random.Random(seed), **kw).program(lo, hi)
